@@ -2,6 +2,7 @@
 //! CRASH over two stores + differential histories + cold store that rejects un-warmed reads +
 //! every subset of hot files removed before the hot/cold repair.
 
+use std::os::unix::ffi::OsStrExt;
 use std::collections::BTreeMap;
 
 use rustic_core::{
@@ -263,6 +264,45 @@ fn part_cold_mode(raw: &RawKey, base: &Env, model: &BTreeMap<String, LTree>, rep
                 }
             }
             rep.inc("cold_restores");
+            // restore again into the now partly up-to-date destination: one file is removed, all
+            // other files get another mtime (so their content is compared blob by blob), nothing
+            // is warmed any more - every pack that is read must be requested again
+            let files: Vec<Vec<u8>> = model.get(&s.label).map(|m| m.iter().filter(|(_, n)| n.kind == "file").map(|(p, _)| p.clone()).collect()).unwrap_or_default();
+            for victim in files.iter().take(6) {
+                for f in &files {
+                    let path = sb.join(&s.label).join(std::ffi::OsStr::from_bytes(f));
+                    if f == victim {
+                        _ = std::fs::remove_file(&path);
+                    } else {
+                        vkit::fsx::set_mtime(&path, 1_500_000_000_000_000_000);
+                    }
+                }
+                {
+                    let mut w = env.world.lock().unwrap();
+                    for x in &mut w.warmed {
+                        x.clear();
+                    }
+                    w.reset_log();
+                }
+                let ls = repo.ls(&node, &LsOptions::default().recursive(true)).map_err(|e| ("C16/cold/restore".to_string(), e.display_log()))?;
+                let plan = repo.prepare_restore(&opts, ls.clone(), &dest, false).map_err(|e| ("C16/cold/restore-partial/error".to_string(), e.display_log()))?;
+                let r = std::panic::catch_unwind(std::panic::AssertUnwindSafe(|| repo.restore(plan, &opts, ls, &dest)));
+                cold_ok(&env, "restore-into-partly-present-destination")?;
+                match r {
+                    Ok(Ok(())) => {}
+                    Ok(Err(e)) => return Err(("C16/cold/restore-partial/error".into(), e.display_log())),
+                    Err(_) => return Err(("C16/cold/restore-partial/panic".into(), "restore from a cold store into a partly present destination panicked".into())),
+                }
+                let got = vkit::fsx::snapshot(&sb.join(&s.label));
+                if let Some(m) = model.get(&s.label) {
+                    for (p, n) in m {
+                        if n.kind == "file" && got.get(p).and_then(|x| x.data.as_ref()).map(|d| vkit::decode::sha256_hex(d)) != n.sha {
+                            return Err(("C16/cold/restore-partial/content".into(), format!("{} differs after restoring into a partly present destination", String::from_utf8_lossy(p))));
+                        }
+                    }
+                }
+                rep.inc("cold_partial_restores");
+            }
         }
         _ = std::fs::remove_dir_all(&sb);
     }
